@@ -1470,6 +1470,8 @@ func main() {
 		}
 	case "replay":
 		replay(*file, rng)
+	case "gc":
+		gcMode()
 	}
 	_ = sort.Strings
 }
